@@ -25,8 +25,10 @@ ENC_TRUSTED = declib.DEC_TRUSTED + [
     "#tables, count = ceil(nm/50) <= 18001) for every symbol vector, cluster factor and every admissible make_code_lengths, with no "
     "out-of-bounds access or failed assert; tied to encode.c by harness/gen_h.c (ASan+UBSan+asserts, poisoned state: nt, cost, selectors in "
     "both numberings, tmap, every transmitted table) and on the real mtfv of whole blocks (gen_part.check_blocks). Remaining witness: BWT "
-    "primary index, padding (w_pad <= 3) and extra selector chosen in encode(); NOT proved: that the real make_code_lengths never fails "
-    "(Huffman depth <= 30 for <= 900050 symbols) - the composition theorems are conditional on the model returning a value",
+    "primary index, padding (w_pad <= 3) and extra selector chosen in encode(); make_code_lengths() is proved total for every "
+    "frequency row with 3..258 entries and sum <= 3524319 (Huffman depth <= 30 by a Fibonacci argument on THIS two-queue construction; "
+    "all asserts of build_tree/compute_depths hold), so Properties_C02gen_total states the round trip and strictness with computed tables "
+    "and selectors without any proviso (C02gen_stream_total)",
 ]
 
 
